@@ -78,12 +78,27 @@ def check_autocommit(ctx, R):
     init = cls.methods['__init__']
     con = ctx.construct(init)
     ok, line = False, init.node.lineno
+    # names that denote the very dict the consumer is later built from: the field, and a parameter stored in it as it is
+    # (after `self.consumer_params = dict(consumer_params)` the parameter is another object)
+    aliases = {'self.consumer_params'}
+    for s in init.node.body:
+        if isinstance(s, ast.Assign) and any(src(t) == 'self.consumer_params' for t in s.targets) and isinstance(s.value, ast.Name):
+            aliases.add(s.value.id)
+    stray = []
+    for n in own_nodes(init.node):
+        if isinstance(n, ast.Subscript) and isinstance(n.ctx, ast.Store) and isinstance(n.slice, ast.Constant) \
+                and isinstance(n.slice.value, str) and '.' in n.slice.value and src(n.value) not in aliases:
+            stray.append(n)
+    R.ob('AUTOCOMMIT-OFF', con, 'settings-reach-the-consumer', not stray,
+         'a consumer setting (%s) is written into %s, which is not the dict the consumer is built from (self.consumer_params): '
+         'the setting never takes effect' % (stray[0].slice.value if stray else '', src(stray[0].value) if stray else ''),
+         ctx.where(init, stray[0].lineno) if stray else ctx.where(init, init.node.lineno))
     for s in init.node.body:           # top level only: unconditional
         if isinstance(s, ast.Assign) and isinstance(s.targets[0], ast.Subscript) \
                 and isinstance(s.targets[0].slice, ast.Constant) and s.targets[0].slice.value == 'enable.auto.commit':
             base = src(s.targets[0].value)
             val = s.value
-            if base in ('self.consumer_params', 'consumer_params') and isinstance(val, ast.Constant) and val.value in ('false', False, 'False'):
+            if base in aliases and isinstance(val, ast.Constant) and val.value in ('false', False, 'False'):
                 ok, line = True, s.lineno
     R.ob('AUTOCOMMIT-OFF', con, 'enable.auto.commit', ok,
          "auto-commit is not forced off unconditionally in the constructor: offsets could be committed before processing",
@@ -394,6 +409,12 @@ def check_seed(ctx, R):
                 and _attr_call(x.value, 'committed') and any(isinstance(t, ast.Name) and t.id == it for t in x.targets)]
         if not cdef and not (loop is not None and isinstance(loop.iter, ast.Call) and _attr_call(loop.iter, 'committed')):
             ok, detail = False, 'the seeding loop does not iterate the result of consumer.committed(...)'
+        alldefs = [x for x in own_nodes(SF.node) if isinstance(x, (ast.Assign, ast.AugAssign, ast.For)) and any(
+            isinstance(t, ast.Name) and t.id == it for t in (x.targets if isinstance(x, ast.Assign) else [x.target]))]
+        other = [x for x in alldefs if x not in cdef]
+        if ok and other:
+            ok, detail = False, ('the seeding loop can iterate `%s` defined at line %d, which is not a result of consumer.committed(): '
+                                 'positions would start from a value that is not the committed offset' % (it, other[0].lineno))
         outer = next((w for w in SF.node.body if isinstance(w, ast.While) and any(y is asg for y in ast.walk(w))), None)
         if ok and outer is not None:
             brs = [b for b in ast.walk(outer) if isinstance(b, ast.Break)]
